@@ -91,3 +91,22 @@ Theorem C05_refused_calls_leave_no_trace : forall c ops ps,
     filter (fun r => negb ((fst r =? ValueError) || (fst r =? IOError))) (answers c ps ops).
 Proof. exact refused_calls_leave_no_trace. Qed.
 Print Assumptions C05_refused_calls_leave_no_trace.
+
+(* ---- "a sample, once written, never changes value", along ANY history of public API calls in gapped
+   mode (rf_write / rf_write_blocks in any mix, accepted or refused): whatever the files hold at index k
+   after a prefix of the history, they hold after the whole history.  Spec level first (any mode's
+   gapped Spec step; the continuous Spec is the same sequence of single-block steps). *)
+From DRF Require Import Proofs.Counters.
+
+Theorem C05_api_spec_never_rewritten : forall c ops1 ops2 k v, Forall api_arg_ok (ops1 ++ ops2) ->
+  s_map (fold_left (api_spec_gapped c) ops1 spec_init) k = Some v ->
+  s_map (fold_left (api_spec_gapped c) (ops1 ++ ops2) spec_init) k = Some v.
+Proof. exact api_spec_never_rewritten_gapped. Qed.
+Print Assumptions C05_api_spec_never_rewritten.
+
+Theorem C05_api_sample_never_changes : forall c ops1 ops2 k v,
+  vcfg c -> c_chunk c = true -> c_cont c = false -> Forall api_arg_ok (ops1 ++ ops2) ->
+  lookup_st (p_w (fold_left (api_state c) ops1 py_init)) k = Some v ->
+  lookup_st (p_w (fold_left (api_state c) (ops1 ++ ops2) py_init)) k = Some v.
+Proof. exact api_sample_never_changes_gapped. Qed.
+Print Assumptions C05_api_sample_never_changes.
